@@ -52,7 +52,7 @@ def plan(tier, seed):
     def size():
         return SIZES[int(rng.choice(4, p=[0.15, 0.35, 0.35, 0.15]))]
 
-    reps = 10 if quick else 80
+    reps = 10 if quick else 320
     for fam, mask, wrap in itertools.product(FAMILIES, MASKS, [True, False]):
         if wrap and mask == "none" and fam not in PERIODIC:
             continue  # the seam edges would be the only large differences: scaled to a trivial field
